@@ -1,5 +1,216 @@
 import Ecal.Drivers.Util
+import Ecal.Model.Bridge
+/-!
+Driver of C19. Payload (space separated):
+
+  `<name> <mode> <params>;<V|N>;<results> <body> <arg>…`
+
+* mode `D` = `ECALFunctionAdapter.Run` called directly, `I` = ECAL call through the
+  interpreter, `T` = the same inside `try … except`.
+* types (comma separated, `-` = none): `int int8 … uintptr f32 f64 bool str iface error io<n>
+  emap o<n>`, `S<type>` for a slice, `N<n>(<type>)` for a defined type with that underlying type; with `V` the last parameter is the variadic slice.
+* body: `echo` (returns what it received), `echo+<value>|…` (… followed by these values), `vlen` (returns the fixed arguments and the number of
+  variadic ones), `k:<value>|<value>…` (returns these values; `k:` = none), `panic`, `opaque`
+  (a function of the generated stdlib: assumed not to panic, values unknown), `notfunc`.
+* values: `z` nil, `b:0|1`, `n:<float64 bits|nan>`, `g:<bits>` float32 (as float64 bits),
+  `i:<kind>:<decimal>`, `s:<hex>`, `l[…]`, `m{…}`, `N<n>(<value>)` (a value of a defined type), `f` (an ECAL function object), `e` (the
+  harness's error value). An argument number carries the platform's conversion to the
+  parameter's integer kind as `n:<bits>:<decimal>` (`-` if the parameter is not of integer kind);
+  the model uses it only when the truncated value is outside the kind's range.
+
+Result: `V <value> recv=[…]` | `E f recv=[…]` (the function's own error) | `E b recv=…` (an error
+made by the bridge; `recv=-`: function not reached) | `X` (escaped panic). Modes I/T: `V <value> …`,
+`E …` resp. `C …` (caught). For `opaque` bodies: `V ? recv=?`.
+-/
 namespace Ecal.Drv.C19
-/-- model driver of property C19 (stub: not implemented yet) -/
-def run (_args : List String) : IO Unit := Ecal.Drv.lineLoop fun _ => "unimplemented"
+open Ecal.Drv Ecal.Bridge
+
+def splitFirst (s : String) (c : Char) : String × String :=
+  let cs := s.toList
+  (String.ofList (cs.takeWhile (· != c)), String.ofList ((cs.dropWhile (· != c)).drop 1))
+
+def parseHexNat (s : String) : Option Nat :=
+  s.toList.foldlM (fun acc c => do let v ← hexVal c; pure (acc * 16 + v)) 0
+
+def parseKind : String → Option IntKind
+  | "int" => some .int | "int8" => some .int8 | "int16" => some .int16 | "int32" => some .int32
+  | "int64" => some .int64 | "uint" => some .uint | "uint8" => some .uint8 | "uint16" => some .uint16
+  | "uint32" => some .uint32 | "uint64" => some .uint64 | "uintptr" => some .uintptr
+  | _ => none
+
+def kindName : IntKind → String
+  | .int => "int" | .int8 => "int8" | .int16 => "int16" | .int32 => "int32" | .int64 => "int64"
+  | .uint => "uint" | .uint8 => "uint8" | .uint16 => "uint16" | .uint32 => "uint32"
+  | .uint64 => "uint64" | .uintptr => "uintptr"
+
+partial def parseTy (s : String) : Option Ty :=
+  match parseKind s with
+  | some k => some (.int k)
+  | none =>
+    match s with
+    | "f32" => some .f32 | "f64" => some .f64 | "bool" => some .bool | "str" => some .str
+    | "iface" => some .iface | "error" => some .error | "emap" => some .emap
+    | _ =>
+      match s.toList with
+      | 'S' :: rest => (parseTy (String.ofList rest)).map Ty.slice
+      | 'N' :: rest =>
+        let idS := String.ofList (rest.takeWhile (· != '('))
+        let inner := ((rest.dropWhile (· != '(')).drop 1).dropLast
+        do let id ← idS.toNat?; let u ← parseTy (String.ofList inner); pure (Ty.named id u)
+      | 'i' :: 'o' :: rest => (String.ofList rest).toNat?.map Ty.ifaceOther
+      | 'o' :: rest => (String.ofList rest).toNat?.map Ty.other
+      | _ => none
+
+def parseTys (s : String) : Option (List Ty) :=
+  if s = "-" then some [] else (s.splitOn ",").mapM parseTy
+
+def parseSig (s : String) : Option Sig :=
+  match s.splitOn ";" with
+  | [p, v, r] => do
+    let ps ← parseTys p
+    let rs ← parseTys r
+    pure { params := ps, variadic := v = "V", results := rs }
+  | _ => none
+
+/-! float64 bits ↔ `Num` -/
+
+def decodeF64 (b : Nat) : Num :=
+  let neg := b / 2 ^ 63 % 2 == 1
+  let ex : Nat := b / 2 ^ 52 % 2048
+  let mant : Nat := b % 2 ^ 52
+  let sgn (n : Nat) : Int := if neg then -(n : Int) else (n : Int)
+  if ex == 2047 then (if mant == 0 then .inf neg else .nan)
+  else if ex == 0 then .fin (sgn mant) (-1074)
+  else .fin (sgn (mant + 2 ^ 52)) ((ex : Int) - 1075)
+
+def hex16 (n : Nat) : String :=
+  String.ofList ((List.range 16).reverse.map fun i => hexDigit (n / 16 ^ i % 16))
+
+def encodeF64 : Num → String
+  | .nan => "nan"
+  | .inf neg => if neg then "fff0000000000000" else "7ff0000000000000"
+  | .fin m e =>
+    if m == 0 then "0000000000000000" else
+    let r := roundSig 53 m e
+    let a := r.1.natAbs
+    let l := bitLen a
+    let a' := a * 2 ^ (53 - l)
+    let e' : Int := r.2 - ((53 - l : Nat) : Int)
+    let biased : Int := e' + 1075
+    let sign := if m < 0 then 2 ^ 63 else 0
+    if biased ≥ 2047 then (if m < 0 then "fff0000000000000" else "7ff0000000000000")
+    else if biased ≤ 0 then hex16 (sign + a' / 2 ^ (1 - biased).toNat)
+    else hex16 (sign + biased.toNat * 2 ^ 52 + (a' - 2 ^ 52))
+
+def parseNumBits (s : String) : Option Num :=
+  if s = "nan" then some .nan else (parseHexNat s).map decodeF64
+
+/-- a value token; for `n:<bits>:<oracle>` also the oracle -/
+partial def parseVal (s : String) : Option (Val × Option Int) :=
+  match s.toList with
+  | 'N' :: rest =>
+    let idS := String.ofList (rest.takeWhile (· != '('))
+    let inner := ((rest.dropWhile (· != '(')).drop 1).dropLast
+    do let id ← idS.toNat?; let v ← parseVal (String.ofList inner); pure (.named id v.1, none)
+  | ['z'] => some (.nil, none)
+  | ['f'] => some (.foreign (.other 1) "f", none)
+  | ['e'] => some (.foreign (.other 2) "e", none)
+  | 'b' :: ':' :: r => some (.bool (r == ['1']), none)
+  | 's' :: ':' :: _ => some (.str s, none)
+  | 'l' :: _ => some (.list s, none)
+  | 'm' :: _ => some (.map s, none)
+  | 'g' :: ':' :: r => (parseNumBits (String.ofList r)).map fun x => (.f32 x, none)
+  | 'i' :: ':' :: r =>
+    let (k, n) := splitFirst (String.ofList r) ':'
+    do let k ← parseKind k; let n ← n.toInt?; pure (.int k n, none)
+  | 'n' :: ':' :: r =>
+    let (b, o) := splitFirst (String.ofList r) ':'
+    do let x ← parseNumBits b; pure (.f64 x, o.toInt?)
+  | _ => none
+
+def showVal : Val → String
+  | .nil => "z"
+  | .bool b => if b then "b:1" else "b:0"
+  | .int k n => "i:" ++ kindName k ++ ":" ++ toString n
+  | .f32 x => "g:" ++ encodeF64 x
+  | .f64 x => "n:" ++ encodeF64 x
+  | .str c => c
+  | .list c => c
+  | .map c => c
+  | .foreign _ c => c
+  | .named id v => "N" ++ toString id ++ "(" ++ showVal v ++ ")"
+
+def showRet : Ret → String
+  | .one v => showVal v
+  | .many vs => "l[" ++ ",".intercalate (vs.map showVal) ++ "]"
+
+def showRecv : Option (List Val) → String
+  | none => "recv=-"
+  | some l => "recv=[" ++ ";".intercalate (l.map showVal) ++ "]"
+
+def mkBody (sig : Sig) (b : String) : Option (List Val → BodyOut) :=
+  if b = "echo" then some .ret
+  else if b = "vlen" then
+    let n := sig.params.length - 1
+    some fun l => .ret (l.take n ++ [.int .int ((l.length - n : Nat) : Int)])
+  else if b = "panic" then some fun _ => .panic
+  else if b = "opaque" then some fun _ => .ret []
+  else if b.startsWith "echo+" then
+    let r := String.ofList (b.toList.drop 5)
+    (r.splitOn "|").mapM (fun t => (parseVal t).map (·.1)) |>.map fun vs => fun l => .ret (l ++ vs)
+  else if b.startsWith "k:" then
+    let r := String.ofList (b.toList.drop 2)
+    if r = "" then some fun _ => .ret []
+    else (r.splitOn "|").mapM (fun t => (parseVal t).map (·.1)) |>.map fun vs => fun _ => .ret vs
+  else none
+
+/-- The model runs with the shape of `Run` that the proof requires (`Props.C19.shape_recovers` checks
+    that the regenerated `Gen.C19.runShape` has it): if the source loses its recover, the run shows a
+    concrete crashing input instead of agreeing with the broken code. -/
+def requiredShape : Shape :=
+  { errIsNamedResult := true, firstStmtIsDefer := true, closureCallsRecover := true, closureAssignsErr := true,
+    arityChecked := true }
+
+def runCase (payload : String) : String :=
+  match payload.splitOn " " with
+  | _name :: mode :: sigS :: bodyS :: argS =>
+    match parseSig sigS, argS.mapM parseVal with
+    | some sig, some argsO =>
+      let args := argsO.map (·.1)
+      -- the platform's out-of-range conversions, keyed by (kind, number)
+      let table : List (IntKind × Num × Int) := (argsO.zip sig.params).filterMap fun ((v, o), p) =>
+        match v, o, p with
+        | .f64 x, some n, .int k => some (k, x, n)
+        | _, _, _ => none
+      let oob : IntKind → Num → Int := fun k x =>
+        match table.find? (fun t => t.1 == k && t.2.1 == x) with
+        | some t => t.2.2
+        | none => 0
+      let tgt? : Option Target :=
+        if bodyS = "notfunc" then some .notFunc else (mkBody sig bodyS).map (Target.fn sig)
+      match tgt? with
+      | none => "bad-body"
+      | some tgt =>
+        let out := run requiredShape oob tgt args
+        let reached := if bodyS = "notfunc" then none else reaches oob sig args
+        let recv := if bodyS = "opaque" && reached.isSome then "recv=?" else showRecv reached
+        let nt := if reached.isSome then "\tnt=1" else ""
+        let opaqueV := bodyS = "opaque"
+        let res :=
+          if mode = "D" then
+            match out with
+            | .escaped => "X"
+            | .done r none => "V " ++ (if opaqueV then "?" else showRet r) ++ " " ++ recv
+            | .done _ (some (.func _)) => "E f " ++ recv
+            | .done _ (some _) => "E b " ++ recv
+          else
+            match executeFunction out with
+            | .crash => "X"
+            | .value r => "V " ++ (if opaqueV then "?" else showRet r) ++ " " ++ recv
+            | .runtimeError => (if mode = "T" then "C " else "E ") ++ recv
+        res ++ nt
+    | _, _ => "bad-payload"
+  | _ => "bad-payload"
+
+def run (_args : List String) : IO Unit := lineLoop runCase
 end Ecal.Drv.C19
